@@ -23,10 +23,8 @@ def fields_last_is_state(loc):
 
 def guarded(E, facts, cur, x):
     """is `cur >= x` among the path facts?"""
-    for op, a, b, want in (('Ge', cur, x, 1), ('Lt', cur, x, 0), ('Le', x, cur, 1), ('Gt', x, cur, 0)):
-        if const_of(E, facts, ('bin', op, a, b)) == want:
-            return True
-    return False
+    from common import cmp_fact
+    return cmp_fact(E, facts, 'Ge', cur, x) == 1
 
 
 def find_aggs(v, adts, out, depth=0):
@@ -100,8 +98,6 @@ def run(C, R):
                                where(F, w), {'trace': trace_summary(path)})
                 if is_entry:
                     grant = path.ret == ('const', 1) or poll_variant(E, path) == 'Ready'
-                    if m.get('name') not in ('try_acquire', 'try_acquire_sync'):
-                        grant = False
                     if grant and len(subs) != 1:
                         R.fail('C05.R3', [m['path'], 'grant-without-single-subtraction', path_cond(E, path)],
                                '%s reports success with %d subtractions [%s]' % (m['path'], len(subs),
